@@ -1,4 +1,5 @@
 import RpycModel.Proto.LifeLemmas
+import RpycModel.Proto.LifePairLemmas
 /-
 C11 — every way a connection can end leaves both sides clean, once, nobody hanging.
 
@@ -198,15 +199,26 @@ theorem blocked_are_released {l l' : Life} (e : Ev) (hs : step l e = some l')
   · simp only [step, Option.some.injEq] at hs; subst hs
     exact ⟨_, excRes_isValue _, close_resolve_released r l _ rfl⟩
 
-/-- **no_hang (after the end).** Once the channel is closed — in particular once the side reports closed —
-no event gives anybody a value, nobody becomes blocked, the channel stays closed, and a blocked waiter's
-next `serve()` is always possible and releases everybody. -/
+/-- **no_hang (after the end, safety part).** Once the channel is closed — in particular once the side reports
+closed — no event gives anybody a value, nobody newly becomes blocked, and the channel stays closed.  (That the
+waiters who ARE blocked get released is `blocked_are_released` for the event that ends the side and
+`blocked_waiter_next_serve_releases` / `other_side_is_reached` for the steps that lead there.) -/
 theorem after_end {l l' : Life} (h : Reach l) (hc : l.chanClosed = true) (e : Ev) (hs : step l e = some l') :
     NoNewValues l l' ∧ l'.blocked.length ≤ l.blocked.length ∧ l'.chanClosed = true := by
   refine ⟨step_nnv l l' e hs ?_, step_no_new_block l l' e hs hc, step_chanClosed l l' e hs h.inv.flags hc⟩
   intro s v he
   subst he
   simp [step, hc] at hs
+
+/-- **no_hang (progress on one side).** A side whose channel is closed (by whatever: a failed request send, a close
+inside a callback) and that still has blocked waiters: their next `serve()` — which meets the closed stream — is
+always possible, closes the side and releases every one of them without a value. -/
+theorem blocked_waiter_next_serve_releases {l : Life} (h : Reach l) (_hc : l.chanClosed = true) (r : TryRes) :
+    ∃ l' res, step l (.eofInServe r) = some l' ∧ l'.closed = true ∧ l'.blocked = [] ∧ res.isValue = false
+      ∧ Released res l l' := by
+  obtain ⟨l', hs, hcl, _, _, hb⟩ := eof_in_serve_leads_to_closed h r
+  obtain ⟨res, hv, hrel⟩ := blocked_are_released (.eofInServe r) hs (Or.inr (Or.inl ⟨r, rfl⟩))
+  exact ⟨l', res, hs, hcl, hb, hv, hrel⟩
 
 theorem reports_closed_implies_channel_closed {l : Life} (h : Reach l) (hc : l.closed = true)
     (hi : l.inClose = false) : l.chanClosed = true := (tables_cleared_on_close h hc hi).2
@@ -241,6 +253,41 @@ theorem issued_afterwards_fails {l : Life} (hc : l.chanClosed = true) (s : Nat) 
                    tablesCleared := l.tablesCleared && !boxRegisters true refArg },
     by simp [step, hn, hc], by simp, rfl, rfl, ?_, rfl⟩
   simp [boxRegisters, boxRefusesOnClosedChannel]
+
+/-! ### both sides: two automata joined by the channel (`Proto/LifePair.lean`) -/
+
+/-- **the other side is reached.** In every reachable state of the PAIR: once a side's stream is closed — in particular
+once it reports closed, however that came about — its peer cannot keep waiting: each `serve()` of the peer is enabled
+(it reads a frame still in flight, e.g. the HANDLE_CLOSE, or end-of-stream), and after at most (frames in flight + 1)
+of them the peer is closed too.  With the one-sided theorems: clean, hook once, every blocked waiter released. -/
+theorem other_side_is_reached {p : Pair} (h : PReach p) (x : PSide) (r : TryRes)
+    (hpeer : (p.get x.peer).chanClosed = true) :
+    (∃ p', serveOnce x r p = some p')
+    ∧ ((serveUntilClosed x r ((p.to x).length + 1) p).get x).closed = true :=
+  ⟨serveOnce_enabled p x r h.inv hpeer, serveUntilClosed_closes x r _ p h.inv hpeer (Nat.lt_succ_self _)⟩
+
+/-- a side that reports closed has a closed stream, so the above applies to its peer -/
+theorem closed_side_ends_its_peer {p : Pair} (h : PReach p) (x : PSide) (r : TryRes)
+    (hc : (p.get x.peer).closed = true) (hi : (p.get x.peer).inClose = false) :
+    ((serveUntilClosed x r ((p.to x).length + 1) p).get x).closed = true := by
+  have f := (h.inv.side x.peer).inv.flags
+  exact (other_side_is_reached h x r (f.cl (f.done hc hi)).2.1).2
+
+/-- **none returns a value the peer did not send (two-sided).** Whatever value a requester was given is a response its
+peer really wrote into the channel for that very request. -/
+theorem value_was_written_by_peer {p : Pair} (h : PReach p) (x : PSide) (s v : Nat)
+    (hm : (s, Res.value v) ∈ (p.get x).outcomes) : (s, v) ∈ p.sentTo x :=
+  (h.inv.side x).got s v ((h.inv.side x).inv.vals s v hm)
+
+/-- A closes (HANDLE_CLOSE written) while B is blocked in a request: B reads the close, is closed with its hook run
+once, and its waiter gets EOFError -/
+example : ∃ p, prun (Pair.init false false false false)
+      [.own .B (.issue 0 false), .own .B (.wait 0 false .eof), .own .A .closeBegin, .closeSent .A] = some p
+    ∧ (p.get .A).closed = true ∧ p.toB = [.close]
+    ∧ ((serveUntilClosed .B .eof 2 p).get .B).closed = true
+    ∧ ((serveUntilClosed .B .eof 2 p).get .B).hookRuns = 1
+    ∧ ((serveUntilClosed .B .eof 2 p).get .B).outcomes = [(0, .eof)] :=
+  ⟨_, rfl, rfl, rfl, rfl, rfl, rfl⟩
 
 /-! ### the whole statement -/
 
